@@ -620,6 +620,8 @@ def snot(a):
 
 
 def sabs(a):
+    if isinstance(a, Opaque):
+        return Opaque(f"abs({a.why})")
     if isinstance(a, XV):
         return a.__abs__()
     if isinstance(a, CV):
